@@ -19,7 +19,7 @@ const STUB: [&str; 4] = [
 ];
 
 pub fn all() -> Vec<Property> {
-    vec![c01(), c02(), c06(), c07(), c08(), c09(), c10(), c11(), c12(), c13(), c14(), c16(), c17()]
+    vec![c01(), c02(), c06(), c07(), c08(), c09(), c10(), c11(), c12(), c13(), c14(), c15(), c16(), c17()]
 }
 
 fn c06() -> Property {
@@ -140,6 +140,41 @@ fn c14() -> Property {
         real_components: REAL.to_vec(),
         stub_components: STUB.to_vec(),
         expected_probes: vec!["late-attach-error-names-the-stop", "late-operation-failed", "peer-error-carried-by-link-error", "re-attach-after-suspension", "cut-beyond-conversation", "answer-error-reported"],
+    }
+}
+
+fn c15() -> Property {
+    Property {
+        id: "C15",
+        level: "exploration",
+        variants: vec![
+            Variant {
+                name: "hostile-peer-vs-client",
+                weight: 1,
+                make: || Box::pin(scen::c15::run_client()),
+                max_steps: 3_000_000,
+                cases_per_seed: 1,
+                note: "real client <-> scripted hostile peer, plus a healthy real pair in the same run",
+            },
+            Variant {
+                name: "hostile-peer-vs-listener",
+                weight: 1,
+                make: || Box::pin(scen::c15::run_listener()),
+                max_steps: 3_000_000,
+                cases_per_seed: 1,
+                note: "real listener <-> scripted hostile peer, plus a healthy real pair in the same run",
+            },
+        ],
+        quick_runs: 12_000,
+        thorough_runs: 600_000,
+        rule: "one run = victim side x endpoint state (open only / session / sender+receiver links / links with a partial incoming delivery and two unsettled outgoing deliveries) x one hostile action from a catalogue of 35 (13 ill-formed byte strings incl. frame sizes 0..7, bad doff, unknown type, oversized, random and bit-flipped bodies, nesting depth up to 20000, truncation; 22 protocol violations) with seeded parameters x endpoint incoming window {2048,3,8} and max-frame-size {65536,512,4096} x network behaviour x schedule; every run is non-trivial; distinct = distinct event-log hash",
+        assumptions: vec![
+            "after the hostile action the scripted peer behaves well again: it reads, settles transfers and answers detach/end/close in kind",
+            "a send on a link that the wire shows to be up may stay pending (the hostile flow may legitimately have withdrawn credit): bounded, not judged",
+        ],
+        real_components: REAL.to_vec(),
+        stub_components: STUB.to_vec(),
+        expected_probes: vec!["bystander-unaffected", "answered-with-close", "answered-with-end", "ignored", "fresh-session-worked"],
     }
 }
 
